@@ -16,6 +16,12 @@ R17.4   client divisor == usable cores / gpus per node the agent derives
 R17.5   rounding direction on the def-use chain from each division
         `requested amount / usable per node` to the node count handed to the
         agent: only upward rounding, kinds combined by max, whole nodes
+R17.6   history independence of resolution and sizing:
+        `Session.get_resource_config`, its callers and the methods they hand
+        the result to (`_start_pilot_bulk` -> `_prepare_pilot`) never store
+        into / mutate in place an object which outlives the call (a stored
+        entry, a container inside the per-call config, the config shared by
+        the pilots of one bulk)
 
 Nothing of /repo is imported or executed: JSON files are read as text, the
 python sources through the program model.
@@ -2822,6 +2828,1097 @@ def r17_5(prog, rep, rid='R17.5'):
 
 
 # ------------------------------------------------------------------------------
+# R17.6   resolution and sizing are history independent: neither
+#         `Session.get_resource_config` nor what prepares a pilot from its
+#         result writes to configuration that outlives the call
+#
+# Objects are classified per program point (reaching definitions):
+#   S  outlives the call and is seen by later calls: the stored entries
+#      `self.<attr>[..][..]` of the resolver, the containers *inside* a fresh
+#      TypedDict instance (its constructor copies the top-level keys only; the
+#      values are those of the stored entry or of the class-level `_defaults`),
+#      a parameter which a caller's loop hands unchanged to every call
+#   F  fresh top-level object of this call (`Cls(from_dict=..)`, `dict(x)`,
+#      `x.copy()`, the containers `verify()` re-created): its keys may be
+#      re-bound, what the keys hold is S
+#   D  private all the way down (`copy.deepcopy`, `ru.Config(from_dict=..)`)
+#   V  immutable scalar field (typed str/int/float/bool in the `_schema`)
+# A violation is a store / in-place mutation whose receiver is S.
+#
+from ..flow import must_pass
+
+_RANK6    = {'V': 0, 'D': 1, 'F': 2, 'S': 3}
+_SCALAR_T = (str, int, float, bool)
+_MUTATORS = frozenset([
+    'append', 'extend', 'insert', 'remove', 'pop', 'popitem', 'clear', 'sort',
+    'reverse', 'update', 'setdefault', 'add', 'discard',
+    'intersection_update', 'difference_update', 'symmetric_difference_update',
+    '__setitem__', '__delitem__', '__iadd__', '__ior__', '__imul__',
+    '__setattr__', '__delattr__'])
+_SPLITS   = frozenset(['split', 'rsplit', 'partition', 'rpartition'])
+_STR_PURE = frozenset(['upper', 'lower', 'strip', 'lstrip', 'rstrip',
+                       'format', 'join', 'replace', 'title', 'capitalize'])
+_FN_PURE  = frozenset(['str', 'int', 'float', 'bool', 'len', 'repr', 'tuple'])
+_COPY1    = frozenset(['dict', 'list', 'set', 'sorted', 'tuple', 'frozenset'])
+_FRESH_RHS = (ast.List, ast.ListComp, ast.Dict, ast.DictComp, ast.Set,
+              ast.SetComp)
+
+
+class _Obj:
+    __slots__ = ('kind', 'spec', 'inv', 'oid', 'origin', 'why')
+
+    def __init__(self, kind, spec=None, inv=None, oid=(), origin='', why=''):
+        self.kind   = kind
+        self.spec   = spec       # type spec (TD schema) | ('store', attr, n)
+        self.inv    = inv        # S: atoms identifying the object | None
+        self.oid    = oid        # identity of the access path
+        self.origin = origin     # readable access path
+        self.why    = why        # why it outlives the call
+
+    def sig(self):
+        return (self.kind, repr(self.spec) if not isinstance(self.spec, tuple)
+                or self.spec[0] != 'td' else self.spec[1].where,
+                tuple(sorted(map(repr, self.inv)))
+                if self.inv is not None else None)
+
+
+def _is_container(spec):
+    return isinstance(spec, tuple) and spec[0] in ('list', 'dict', 'td')
+
+
+def _join6(objs):
+    objs = [o for o in objs if o is not None]
+    if not objs:
+        return None
+    top = max(_RANK6[o.kind] for o in objs)
+    worst = [o for o in objs if _RANK6[o.kind] == top]
+    w = worst[0]
+    spec = w.spec
+    inv  = w.inv
+    for o in worst[1:]:
+        if o.spec != spec:
+            spec = None
+        inv = None if inv is None or o.inv is None else inv & o.inv
+    return _Obj(w.kind, spec, inv, w.oid, w.origin, w.why)
+
+
+def _inv_names(atoms):
+    """names a stored value may depend on while the store stays a function of
+    the object's identity: a name used directly as an index, or a name ALL of
+    whose split() components are used as indices (split is inverted by
+    joining, so the indices determine the name)"""
+    out = set()
+    parts = {}
+    for a in atoms or ():
+        if a[0] == 'p':
+            out.add(a[1])
+        else:
+            parts.setdefault((a[1], a[3], a[4]), set()).add(a[2])
+    for (d, n, name), seen in parts.items():
+        if seen == set(range(n)):
+            out.add(name)
+    return out
+
+
+def _raw_form(mod, node):
+    """'aug' | 'assign' | None: how the statement at the position of the
+    (canonical) augmented assignment `node` is spelled in the source.  The
+    canonical pass turns `x = x + e` into `x += e`; for a list the former
+    re-binds a new object, the latter mutates the old one in place."""
+    idx = mod.__dict__.get('_c17_raw')
+    if idx is None:
+        idx = {}
+        try:
+            tree = ast.parse(mod.src)
+        except (SyntaxError, ValueError, TypeError):
+            tree = None
+        if tree is not None:
+            for n in ast.walk(tree):
+                if isinstance(n, (ast.Assign, ast.AugAssign)):
+                    idx.setdefault((n.lineno, n.col_offset), n)
+        mod.__dict__['_c17_raw'] = idx
+    n = idx.get((getattr(node, 'lineno', -1), getattr(node, 'col_offset', -1)))
+    if isinstance(n, ast.AugAssign):
+        return 'aug'
+    if isinstance(n, ast.Assign):
+        return 'assign'
+    return None
+
+
+class _Frame:
+    """one function analysed under one binding of its parameters"""
+
+    def __init__(self, ctx, f, binding, self_roots, chain):
+        self.ctx, self.f, self.binding = ctx, f, binding
+        self.self_roots = self_roots
+        self.chain = chain
+        self.g     = cfg_of(f)
+        self.rd    = ReachingDefs(self.g)
+        self.smap  = I.stmt_node_map(self.g)
+        deco = {dotted(d) for d in f.node.decorator_list}
+        ps   = f.params
+        self.selfname = ps[0] if f.cls is not None and ps and \
+            'staticmethod' not in deco else None
+        self.limps = f.module.local_imports(f.node)
+        self._memo = {}
+        self._live = {}
+        self.returns = []
+
+    # -- names ----------------------------------------------------------------
+    def _param_live(self, name, nid):
+        if name not in self.f.params:
+            return False
+        defs = self.rd.by_name.get(name, ())
+        if not defs:
+            return True
+        if name not in self._live:
+            self._live[name] = self.g.reachable(self.g.entry.id,
+                                                skip_nodes=defs)
+        R = self._live[name]
+        return nid in R or any(e.src in R for e in self.g.pred[nid])
+
+    def name_obj(self, name, nid, stack=frozenset()):
+        key = (name, nid)
+        if key in self._memo:
+            return self._memo[key]
+        if key in stack:
+            return None
+        st = stack | {key}
+        objs = []
+        if self._param_live(name, nid):
+            objs.append(self.binding.get(name))
+        for d in self.rd.reaching(nid, name):
+            objs.append(self.def_obj(name, d, st))
+        res = _join6(objs)
+        if not stack:
+            self._memo[key] = res
+        return res
+
+    def def_obj(self, name, d, stack):
+        n = self.g.nodes[d]
+        a = n.ast
+        if n.kind == 'stmt':
+            if isinstance(a, ast.Assign):
+                out = []
+                for t in a.targets:
+                    out.append(self._bind(t, a.value, name, d, stack))
+                return _join6(out)
+            if isinstance(a, ast.AnnAssign) and a.value is not None:
+                return self._bind(a.target, a.value, name, d, stack)
+            if isinstance(a, ast.AugAssign) and \
+                    isinstance(a.target, ast.Name) and a.target.id == name:
+                if isinstance(a.op, (ast.Add, ast.Sub)) and \
+                        _raw_form(self.f.module, a) == 'assign':
+                    return None             # x = x + e: a new object
+                return self.name_obj(name, d, stack)
+            for x in walk(a):
+                if isinstance(x, ast.NamedExpr) and \
+                        isinstance(x.target, ast.Name) and x.target.id == name:
+                    return self.expr_obj(x.value, d, stack)
+            return None
+        if n.kind == 'for':
+            return self._for_bind(a, name, d, stack)
+        return None
+
+    def _bind(self, t, v, name, d, stack):
+        if isinstance(t, ast.Name):
+            return self.expr_obj(v, d, stack) if t.id == name else None
+        if isinstance(t, (ast.Tuple, ast.List)) and \
+                isinstance(v, (ast.Tuple, ast.List)) and \
+                len(t.elts) == len(v.elts):
+            return _join6([self._bind(a, b, name, d, stack)
+                           for a, b in zip(t.elts, v.elts)])
+        return None
+
+    def _for_bind(self, a, name, d, stack):
+        it, tg = a.iter, a.target
+        if isinstance(it, ast.Call) and isinstance(it.func, ast.Name) and \
+                it.func.id == 'enumerate' and it.args and \
+                isinstance(tg, (ast.Tuple, ast.List)) and len(tg.elts) == 2:
+            it, tg = it.args[0], tg.elts[1]
+        if isinstance(it, ast.Call) and isinstance(it.func, ast.Attribute) \
+                and it.func.attr in ('items', 'values', 'keys') and \
+                not it.args:
+            base = self.expr_obj(it.func.value, d, stack)
+            if it.func.attr == 'keys':
+                return None
+            if it.func.attr == 'items':
+                if isinstance(tg, (ast.Tuple, ast.List)) and \
+                        len(tg.elts) == 2:
+                    tg = tg.elts[1]
+                else:
+                    return None
+            if isinstance(tg, ast.Name) and tg.id == name:
+                return self.child(base, None, None, d, '[*]')
+            return None
+        if isinstance(tg, ast.Name) and tg.id == name:
+            base = self.expr_obj(it, d, stack)
+            if base is None:
+                return None
+            if isinstance(base.spec, tuple) and base.spec[0] in ('dict', 'td'):
+                return None                 # iterating a mapping yields keys
+            return self.child(base, None, None, d, '[*]')
+        return None
+
+    # -- expressions ----------------------------------------------------------
+    def expr_obj(self, e, nid, stack=frozenset()):
+        ctx = self.ctx
+        if isinstance(e, ast.Name):
+            return self.name_obj(e.id, nid, stack)
+        if isinstance(e, ast.Attribute):
+            if isinstance(e.value, ast.Name) and e.value.id == self.selfname \
+                    and not self.rd.by_name.get(self.selfname):
+                if not self.self_roots:
+                    return None
+                return _Obj('S', ('store', e.attr, 0), frozenset(),
+                            ('root', e.attr), 'self.' + e.attr,
+                            'state of the %s instance: it is there for every '
+                            'later call' % self.f.cls.name)
+            base = self.expr_obj(e.value, nid, stack)
+            return self.field(e.value, base, e.attr, None, nid,
+                              '.' + e.attr, stack)
+        if isinstance(e, ast.Subscript):
+            base = self.expr_obj(e.value, nid, stack)
+            if base is None:
+                return None
+            s = e.slice
+            if isinstance(s, ast.Slice):
+                return _Obj('F', base.spec, None, base.oid + (('c',),),
+                            base.origin + '[:]') if base.kind != 'V' else None
+            key = s.value if isinstance(s, ast.Constant) else None
+            return self.field(e.value, base, key,
+                              None if key is not None else s, nid,
+                              '[%s]' % short(s, 40), stack)
+        if isinstance(e, ast.Call):
+            return self._call_obj(e, nid, stack)
+        if isinstance(e, ast.BoolOp):
+            return _join6([self.expr_obj(v, nid, stack) for v in e.values])
+        if isinstance(e, ast.IfExp):
+            return _join6([self.expr_obj(e.body, nid, stack),
+                           self.expr_obj(e.orelse, nid, stack)])
+        if isinstance(e, ast.NamedExpr):
+            return self.expr_obj(e.value, nid, stack)
+        return None
+
+    def _call_obj(self, c, nid, stack):
+        fn = c.func
+        cn = call_name(c)
+        last = cn.split('.')[-1] if cn else ''
+        if isinstance(fn, ast.Attribute):
+            if fn.attr == 'get' and c.args:
+                base = self.expr_obj(fn.value, nid, stack)
+                a0 = c.args[0]
+                key = a0.value if isinstance(a0, ast.Constant) else None
+                got = self.field(fn.value, base, key,
+                                 None if key is not None else a0, nid,
+                                 '.get(%s)' % short(a0, 40), stack)
+                dflt = self.expr_obj(c.args[1], nid, stack) \
+                    if len(c.args) > 1 else None
+                return _join6([got, dflt])
+            if fn.attr == 'copy' and not c.args and not c.keywords:
+                base = self.expr_obj(fn.value, nid, stack)
+                if base is not None and base.kind in ('S', 'F'):
+                    return _Obj('F', base.spec, None, base.oid + (('c',),),
+                                'a copy of ' + base.origin)
+                return base
+            if fn.attr == 'verify' and not c.args:
+                return self.expr_obj(fn.value, nid, stack)
+        if last == 'deepcopy' and c.args:
+            base = self.expr_obj(c.args[0], nid, stack)
+            if base is None or base.kind == 'V':
+                return None
+            return _Obj('D', base.spec, None, base.oid + (('d',),),
+                        'a deep copy of ' + base.origin)
+        if isinstance(fn, ast.Name) and fn.id in _COPY1 and \
+                len(c.args) == 1 and not c.keywords:
+            base = self.expr_obj(c.args[0], nid, stack)
+            if base is None or base.kind in ('V', 'D'):
+                return base if base is not None and base.kind == 'D' else None
+            return _Obj('F', base.spec, None, base.oid + (('c',),),
+                        '%s(%s)' % (fn.id, base.origin))
+        r = ctx_resolve(self, fn)
+        args = list(c.args) + [k.value for k in c.keywords]
+        if r and r[0] == 'class' and _is_td_class(self.ctx.prog, r[1]):
+            # the constructor copies top-level keys: the new object holds the
+            # containers of its argument and of the class-level defaults
+            src = _join6([self.expr_obj(a, nid, stack) for a in args])
+            if (src is None or src.kind == 'V') and (
+                    self.ctx.deep_defaults(r[1]) or not any(
+                        isinstance(v, (dict, list))
+                        for v in TD.of(self.ctx.prog,
+                                       r[1]).defaults.values())):
+                return None
+            return _Obj('F', ('td', r[1]), None, ('new', nid),
+                        'the %s instance created by `%s`'
+                        % (r[1].name, short(c, 60)))
+        if last == 'Config' and (r is None or r[0] == 'ext'):
+            src = _join6([self.expr_obj(a, nid, stack) for a in args])
+            if src is None or src.kind == 'V':
+                return None
+            return _Obj('D', None, None, ('new', nid),
+                        'the private tree `%s`' % short(c, 60))
+        h = self.ctx.prog.resolve_call(self.f, c, self.f.cls)
+        if h is not None:
+            summ = self.ctx.call(self, c, h, nid)
+            if summ is not None:
+                return summ
+        if isinstance(fn, ast.Attribute) and \
+                fn.attr == self.ctx.resolver.name and \
+                self.ctx.resolver_summary is not None:
+            return self.ctx.resolver_result(nid)
+        return None
+
+    def _field_stores(self, name, key):
+        """{cfg node id: value expr | None} of the stores `<name>.<key> = v`
+        / `<name>[<key>] = v` of this function (None: `x.k = x.k + e` in the
+        source, a new object)"""
+        ck = ('fs', name, key)
+        if ck not in self._memo:
+            out = {}
+            for n in self.g.nodes:
+                a = n.ast
+                if n.kind != 'stmt' or not isinstance(
+                        a, (ast.Assign, ast.AnnAssign, ast.AugAssign)):
+                    continue
+                tgs = a.targets if isinstance(a, ast.Assign) else [a.target]
+                for t in tgs:
+                    if isinstance(t, ast.Attribute):
+                        k = t.attr
+                    elif isinstance(t, ast.Subscript) and \
+                            isinstance(t.slice, ast.Constant):
+                        k = t.slice.value
+                    else:
+                        continue
+                    if k != key or not isinstance(t.value, ast.Name) or \
+                            t.value.id != name:
+                        continue
+                    if isinstance(a, ast.AugAssign):
+                        if isinstance(a.op, (ast.Add, ast.Sub)) and \
+                                _raw_form(self.f.module, a) == 'assign':
+                            out[n.id] = None
+                    elif a.value is not None:
+                        out[n.id] = a.value
+            self._memo[ck] = out
+        return self._memo[ck]
+
+    def field(self, recv, base, key, idx, nid, text, stack):
+        """what `<recv>.<key>` holds at nid: the values this function stored
+        under that key of an object of this call, where such a store lies on
+        every path; else what the object was created with"""
+        if base is None or base.kind == 'V':
+            return None
+        if base.kind in ('F', 'D') and key is not None and \
+                isinstance(recv, ast.Name):
+            W = self._field_stores(recv.id, key)
+            if W:
+                g = self.g
+                ws = set(W)
+                objs = []
+                for w in W:
+                    inner = g.reachable([e.dst for e in g.succ[w]
+                                         if e.label != 'exc'
+                                         and e.dst not in ws],
+                                        skip_nodes=ws)
+                    if nid in inner or any(
+                            (e.src in inner or e.src == w) and
+                            e.label != 'exc' for e in g.pred[nid]):
+                        if W[w] is not None:
+                            objs.append(self.expr_obj(W[w], w, stack))
+                defs = self.rd.reaching(nid, recv.id)
+                if defs and not self._param_live(recv.id, nid) and all(
+                        must_pass(g, d, nid, ws - {nid}) for d in defs):
+                    return _join6(objs)
+                return _join6(objs + [self.child(
+                    base, key, idx, nid, text, self._verified(recv, nid))])
+        return self.child(base, key, idx, nid, text,
+                          self._verified(recv, nid))
+
+    def _verified(self, recv, nid):
+        """`recv` is a plain name whose every definition reaching `nid` is
+        followed, on all paths to `nid`, by `<recv>.verify()` (which re-creates
+        the list / dict typed values)"""
+        if not isinstance(recv, ast.Name):
+            return False
+        defs = self.rd.reaching(nid, recv.id)
+        if not defs or self._param_live(recv.id, nid):
+            return False
+        via = set()
+        for n in self.g.nodes:
+            if n.ast is None or n.kind not in ('stmt', 'test'):
+                continue
+            for c in calls_in(n.ast):
+                if isinstance(c.func, ast.Attribute) and \
+                        c.func.attr == 'verify' and \
+                        isinstance(c.func.value, ast.Name) and \
+                        c.func.value.id == recv.id:
+                    via.add(n.id)
+        via.discard(nid)
+        if not via:
+            return False
+        return all(must_pass(self.g, d, nid, via) for d in defs)
+
+    def child(self, base, key, idx, nid, text, verified=False):
+        if base is None or base.kind == 'V':
+            return None
+        prog = self.ctx.prog
+        spec = base.spec
+        cs = None
+        if isinstance(spec, tuple):
+            if spec[0] == 'td':
+                if isinstance(key, str):
+                    cs = TD.of(prog, spec[1]).schema.get(key)
+            elif spec[0] == 'dict':
+                cs = spec[2]
+            elif spec[0] == 'list':
+                cs = spec[1]
+            elif spec[0] == 'store':
+                cs = self.ctx.store_spec(spec[1], spec[2] + 1)
+        step = ('k', key) if key is not None else \
+            ('i', unparse(idx) if idx is not None else '*')
+        oid = base.oid + (step,)
+        origin = base.origin + text
+        if cs in _SCALAR_T:
+            return _Obj('V', cs, None, oid, origin)
+        if base.kind == 'D':
+            return _Obj('D', cs, None, oid, origin)
+        if base.kind == 'S':
+            inv = base.inv
+            if idx is not None and inv is not None:
+                inv = inv | self.key_atoms(idx, nid)
+            return _Obj('S', cs, inv, oid, origin, base.why)
+        # contents of a fresh top-level object
+        if verified and isinstance(spec, tuple) and spec[0] == 'td' and \
+                isinstance(cs, tuple) and cs[0] in ('list', 'dict'):
+            return _Obj('F', cs, None, oid, origin)
+        why = ('%s is a new object, but what its keys hold is not copied: '
+               'the value is the one held by the stored entry it was built '
+               'from' % base.origin)
+        if isinstance(spec, tuple) and spec[0] == 'td':
+            td = TD.of(prog, spec[1])
+            if isinstance(key, str) and key in td.defaults and \
+                    not self.ctx.deep_defaults(spec[1]):
+                why += (' or, where the platform does not set %r, the one '
+                        'class-level default object %s._defaults[%r] which '
+                        'every such platform shares (%s._deep is False)'
+                        % (key, spec[1].name, key, spec[1].name))
+        return _Obj('S', cs, None, oid, origin, why)
+
+    # -- values a store may depend on ----------------------------------------
+    def _single_def(self, name, nid):
+        """(cfg node, target, value) of the one plain assignment of `name`
+        reaching nid, else None"""
+        if self._param_live(name, nid):
+            return None
+        defs = self.rd.reaching(nid, name)
+        if len(defs) != 1:
+            return None
+        d = self.g.nodes[next(iter(defs))]
+        a = d.ast
+        if d.kind != 'stmt' or not isinstance(a, ast.Assign) or \
+                len(a.targets) != 1:
+            return None
+        return d, a.targets[0], a.value
+
+    def _is_free_param(self, name, nid):
+        return name in self.f.params and name != self.selfname and \
+            not self.rd.by_name.get(name)
+
+    def leaves(self, e, nid, depth=0):
+        """parameter names the value of e is a pure function of (constants,
+        string operations); None if it reads anything else"""
+        if depth > 8:
+            return None
+        if isinstance(e, ast.Constant):
+            return set()
+        if isinstance(e, ast.Name):
+            if self._is_free_param(e.id, nid):
+                return {e.id}
+            sd = self._single_def(e.id, nid)
+            if sd is None:
+                return None
+            d, t, v = sd
+            if isinstance(t, ast.Name) or (
+                    isinstance(t, (ast.Tuple, ast.List)) and
+                    not isinstance(v, (ast.Tuple, ast.List))):
+                return self.leaves(v, d.id, depth + 1)
+            return None
+        if isinstance(e, (ast.Tuple, ast.List)):
+            parts = [self.leaves(x, nid, depth + 1) for x in e.elts]
+        elif isinstance(e, ast.BinOp):
+            parts = [self.leaves(e.left, nid, depth + 1),
+                     self.leaves(e.right, nid, depth + 1)]
+        elif isinstance(e, ast.JoinedStr):
+            parts = [self.leaves(x, nid, depth + 1) for x in e.values]
+        elif isinstance(e, ast.FormattedValue):
+            parts = [self.leaves(e.value, nid, depth + 1)]
+        elif isinstance(e, ast.Call) and not e.keywords and (
+                isinstance(e.func, ast.Attribute) and
+                e.func.attr in _STR_PURE | _SPLITS or
+                isinstance(e.func, ast.Name) and e.func.id in _FN_PURE):
+            parts = [self.leaves(x, nid, depth + 1) for x in e.args]
+            if isinstance(e.func, ast.Attribute):
+                parts.append(self.leaves(e.func.value, nid, depth + 1))
+        else:
+            return None
+        if any(p is None for p in parts):
+            return None
+        out = set()
+        for p in parts:
+            out |= p
+        return out
+
+    def key_atoms(self, idx, nid):
+        """what an index expression contributes to the identity of the
+        indexed element"""
+        e = idx
+        for _ in range(8):
+            if not isinstance(e, ast.Name):
+                return frozenset()
+            if self._is_free_param(e.id, nid):
+                return frozenset([('p', e.id)])
+            sd = self._single_def(e.id, nid)
+            if sd is None:
+                return frozenset()
+            d, t, v = sd
+            if isinstance(t, ast.Name):
+                e, nid = v, d.id
+                continue
+            if isinstance(t, (ast.Tuple, ast.List)) and \
+                    isinstance(v, ast.Call) and \
+                    isinstance(v.func, ast.Attribute) and \
+                    v.func.attr in _SPLITS and \
+                    isinstance(v.func.value, ast.Name) and \
+                    self._is_free_param(v.func.value.id, d.id) and \
+                    all(isinstance(x, ast.Name) for x in t.elts):
+                pos = [i for i, x in enumerate(t.elts) if x.id == e.id]
+                if len(pos) == 1:
+                    return frozenset([('u', d.id, pos[0], len(t.elts),
+                                       v.func.value.id)])
+            return frozenset()
+        return frozenset()
+
+    # -- loops of the caller --------------------------------------------------
+    def shared_loop(self, name, nid):
+        """head of the outermost loop around nid which contains no definition
+        of `name` reaching nid: every iteration sees the same object"""
+        defs = self.rd.reaching(nid, name)
+        for h in self.g.nodes[nid].loops:
+            if all(d != h and h not in self.g.nodes[d].loops for d in defs):
+                return h
+        return None
+
+    def invariant_in(self, e, h):
+        for nm in {x.id for x in walk(e) if isinstance(x, ast.Name)}:
+            for d in self.rd.by_name.get(nm, ()):
+                if d == h or h in self.g.nodes[d].loops:
+                    return False
+        return True
+
+    # -- events ---------------------------------------------------------------
+    def scan(self):
+        f = self.f
+        for x in walk(f.node):
+            n = self.smap.get(id(x))
+            if n is None:
+                continue
+            if isinstance(x, (ast.Assign, ast.AugAssign, ast.AnnAssign,
+                              ast.Delete)):
+                if n.kind == 'stmt' and n.ast is x:
+                    self._store_event(x, n)
+            elif isinstance(x, ast.Call):
+                self._call_event(x, n)
+            elif isinstance(x, ast.Return) and x.value is not None:
+                self.returns.append(self.expr_obj(x.value, n.id))
+        return self
+
+    def _ok(self, what, node):
+        self.ctx.rep.ok(self.ctx.rid, self.f, what, self.f.loc(node))
+
+    def _bad(self, stmt, obj, verb, extra=''):
+        via = ''
+        if len(self.chain) > 1:
+            via = ' (reached through %s)' % ' -> '.join(self.chain)
+        msg = ('%s%s: `%s` %s %s, an object which outlives the call - %s.%s  '
+               'Every later call reads what this one left behind, so what a '
+               'platform resolves to / how a pilot is sized is no longer a '
+               'function of the platform, the schema and the pilot '
+               'description alone but of the calls made before.  Re-bind a '
+               'new value on the per-call object, or work on a private copy '
+               '(copy.deepcopy), instead.'
+               % (self.f.qual, via, short(stmt, 90), verb, obj.origin,
+                  obj.why or 'it is reachable from the stored configuration',
+                  (' ' + extra) if extra else ''))
+        self.ctx.rep.bad(self.ctx.rid, self.f, short(stmt, 90), msg,
+                         self.f.loc(stmt), history=self.ctx.history(obj))
+
+    def _in_place(self, spec, st):
+        if _is_container(spec):
+            return True
+        if spec is not None:
+            return False
+        v = st.value
+        return isinstance(v, _FRESH_RHS) or (
+            isinstance(v, ast.Call) and isinstance(v.func, ast.Name) and
+            v.func.id in ('list', 'dict', 'set'))
+
+    def _aug_form(self, st):
+        """'aug' (in place) | 'assign' (the source says x = x + e)"""
+        if not isinstance(st.op, (ast.Add, ast.Sub)):
+            return 'aug'
+        form = _raw_form(self.f.module, st)
+        if form is None:
+            raise AnalysisError(
+                'UNRECOGNISED-IDIOM %s: cannot tell whether `%s` is an '
+                'in-place `+=` or a re-binding `x = x + e` in the source '
+                '(the canonical spelling merges them)'
+                % (self.f.where, short(st, 80)))
+        return form
+
+    def _store_event(self, st, n):
+        if isinstance(st, (ast.Assign, ast.Delete)):
+            tgs = list(st.targets)
+        else:
+            tgs = [st.target]
+        flat = []
+        while tgs:
+            t = tgs.pop()
+            if isinstance(t, (ast.Tuple, ast.List)):
+                tgs += t.elts
+            elif isinstance(t, ast.Starred):
+                tgs.append(t.value)
+            else:
+                flat.append(t)
+        aug = isinstance(st, ast.AugAssign)
+        for t in flat:
+            if isinstance(t, (ast.Attribute, ast.Subscript)):
+                if isinstance(t, ast.Attribute) and \
+                        isinstance(t.value, ast.Name) and \
+                        t.value.id == self.selfname:
+                    if not self.self_roots:
+                        continue
+                    base = _Obj('S', None, frozenset(), ('self',), 'self',
+                                'the %s instance is there for every later '
+                                'call' % self.f.cls.name)
+                else:
+                    base = self.expr_obj(t.value, n.id)
+                if base is None or base.kind == 'V':
+                    continue
+                if isinstance(t, ast.Attribute):
+                    key = t.attr
+                else:
+                    key = t.slice.value if isinstance(t.slice, ast.Constant) \
+                        else None
+                if base.kind in ('F', 'D'):
+                    if aug and base.kind == 'F':
+                        cont = self.expr_obj(t, n.id)
+                        if cont is not None and cont.kind == 'S' and \
+                                self._in_place(cont.spec, st):
+                            if self._aug_form(st) == 'aug':
+                                self._bad(st, cont, 'changes in place',
+                                          'The augmented assignment calls '
+                                          '__iadd__ on the old container and '
+                                          'then stores the same object again.')
+                                continue
+                    self._ok('`%s` re-binds a key of %s, an object of this '
+                             'call' % (short(st, 60), base.origin), st)
+                    continue
+                why = None
+                if isinstance(st, ast.Assign) and key is not None:
+                    why = self._exempt(base, key, st, n)
+                    if why is True:
+                        self._ok('`%s` stores a value which is a function of '
+                                 'what identifies %s (the same value on every '
+                                 'call that reaches this object, before the '
+                                 'object is read)' % (short(st, 60),
+                                                      base.origin), st)
+                        continue
+                self._bad(st, base, 'deletes from' if isinstance(
+                    st, ast.Delete) else 'stores into', why or '')
+            elif isinstance(t, ast.Name) and aug:
+                cur = self.name_obj(t.id, n.id)
+                if cur is None:
+                    continue
+                if cur.kind == 'V':
+                    self._ok('`%s` re-binds the local copy of the scalar '
+                             'field %s' % (short(st, 60), cur.origin), st)
+                elif cur.kind == 'S':
+                    if self._in_place(cur.spec, st) and \
+                            self._aug_form(st) == 'aug':
+                        self._bad(st, cur, 'changes in place',
+                                  'The local name is an alias of the '
+                                  'container, not a copy.')
+                else:
+                    self._ok('`%s` changes %s, an object of this call'
+                             % (short(st, 60), cur.origin), st)
+
+    def _exempt(self, base, key, st, n):
+        """True, or the reason why the store is not idempotent"""
+        if base.inv is None:
+            return ''
+        lv = self.leaves(st.value, n.id)
+        if lv is None:
+            return ('The stored value `%s` is computed from more than the '
+                    'parameters of the call.' % short(st.value, 60))
+        allowed = _inv_names(base.inv)
+        if not lv <= allowed:
+            return ('The stored value depends on %s, while the object is '
+                    'identified by %s: two calls reaching the same object '
+                    'store different values.'
+                    % (', '.join(sorted(lv - allowed)),
+                       ', '.join(sorted(allowed)) or 'nothing of the call'))
+        # no read of that key / use of the whole object before the store
+        before = set()
+        todo = [n.id]
+        while todo:
+            m = todo.pop()
+            for e in self.g.pred[m]:
+                if e.src not in before:
+                    before.add(e.src)
+                    todo.append(e.src)
+        before.discard(n.id)
+        for x in walk(self.f.node):
+            m = self.smap.get(id(x))
+            if m is None or m.id not in before:
+                continue
+            hit = None
+            if isinstance(x, ast.Attribute) and x.attr == key and \
+                    isinstance(x.ctx, ast.Load):
+                hit = x.value
+            elif isinstance(x, ast.Subscript) and \
+                    isinstance(x.ctx, ast.Load) and \
+                    isinstance(x.slice, ast.Constant) and \
+                    x.slice.value == key:
+                hit = x.value
+            elif isinstance(x, ast.Call):
+                if isinstance(x.func, ast.Attribute) and \
+                        x.func.attr == 'get' and x.args and \
+                        isinstance(x.args[0], ast.Constant) and \
+                        x.args[0].value == key:
+                    hit = x.func.value
+                else:
+                    for a in list(x.args) + [k.value for k in x.keywords]:
+                        o = self.expr_obj(a, m.id)
+                        if o is not None and o.kind == 'S' and \
+                                o.oid == base.oid:
+                            return ('The object is handed to `%s` before the '
+                                    'store on some path: the first call works '
+                                    'with the old value, later calls with the '
+                                    'stored one.' % short(x, 60))
+            elif isinstance(x, ast.Return) and x.value is not None:
+                hit = None
+                o = self.expr_obj(x.value, m.id)
+                if o is not None and o.kind == 'S' and o.oid == base.oid:
+                    return 'The object is returned before the store.'
+            if hit is not None:
+                o = self.expr_obj(hit, m.id)
+                if o is not None and o.kind == 'S' and o.oid == base.oid:
+                    return ('%r of the object is read before the store on '
+                            'some path: the first call works with the old '
+                            'value, later calls with the stored one.' % key)
+        return True
+
+    def _call_event(self, c, n):
+        fn  = c.func
+        nid = n.id
+        cn  = call_name(c)
+        last = cn.split('.')[-1] if cn else ''
+        if last == 'dict_merge':
+            a, b = kwarg(c, 'a', 0), kwarg(c, 'b', 1)
+            tgt = self.expr_obj(a, nid) if a is not None else None
+            if tgt is None or tgt.kind == 'V':
+                return
+            if tgt.kind == 'S':
+                self._bad(c, tgt, 'merges into')
+                return
+            if tgt.kind == 'F':
+                src = self.expr_obj(b, nid) if b is not None else None
+                flat = None
+                if src is not None and isinstance(src.spec, tuple) and \
+                        src.spec[0] == 'td':
+                    sch = TD.of(self.ctx.prog, src.spec[1]).schema
+                    flat = all(v in _SCALAR_T for v in sch.values())
+                elif src is not None and isinstance(src.spec, tuple) and \
+                        src.spec[0] == 'dict':
+                    flat = src.spec[2] in _SCALAR_T
+                elif isinstance(b, ast.Dict):
+                    flat = all(isinstance(v, ast.Constant) for v in b.values)
+                if flat is None:
+                    raise AnalysisError(
+                        'UNRECOGNISED-IDIOM %s: cannot type the operand `%s` '
+                        'merged into %s (a nested dict in it would be merged '
+                        'into a container shared with the stored entry)'
+                        % (self.f.where, short(b, 60), tgt.origin))
+                if not flat:
+                    self._bad(c, _Obj('S', None, None, tgt.oid,
+                                      'the containers held by ' + tgt.origin,
+                                      'dict_merge descends into values which '
+                                      'are dicts on both sides, and those of '
+                                      '%s are not copies' % tgt.origin),
+                              'merges nested dicts into')
+                    return
+            self._ok('`%s` merges scalar settings into %s: top-level keys of '
+                     'an object of this call are re-bound'
+                     % (short(c, 60), tgt.origin), c)
+            return
+        if isinstance(fn, ast.Name) and fn.id in ('setattr', 'delattr') and \
+                len(c.args) >= 2:
+            base = self.expr_obj(c.args[0], nid)
+            if base is not None and base.kind == 'S':
+                self._bad(c, base, 'stores into')
+            elif base is not None and base.kind != 'V':
+                self._ok('`%s` on an object of this call' % short(c, 60), c)
+            return
+        if isinstance(fn, ast.Attribute):
+            if fn.attr in _MUTATORS:
+                recv = self.expr_obj(fn.value, nid)
+                if recv is None or recv.kind == 'V':
+                    return
+                if recv.kind == 'S':
+                    self._bad(c, recv, 'changes in place (%s)' % fn.attr)
+                else:
+                    self._ok('`%s` changes %s, an object of this call'
+                             % (short(c, 60), recv.origin), c)
+                return
+            if fn.attr == 'verify' and not c.args and not c.keywords:
+                recv = self.expr_obj(fn.value, nid)
+                if recv is not None and recv.kind != 'V':
+                    self._ok('`%s` casts every value to the type its schema '
+                             'names: applied again it changes nothing, so it '
+                             'is the same for every call' % short(c, 60), c)
+                return
+        h = self.ctx.prog.resolve_call(self.f, c, self.f.cls)
+        if h is not None and h is not self.ctx.resolver:
+            self.ctx.call(self, c, h, nid)
+
+    def resolve(self, expr):
+        if isinstance(expr, (ast.Name, ast.Attribute)):
+            return self.ctx.prog.resolve(self.f.module, expr, self.limps)
+        return None
+
+
+def ctx_resolve(frame, expr):
+    return frame.resolve(expr)
+
+
+class _Purity:
+
+    def __init__(self, prog, rep, rid):
+        self.prog, self.rep, self.rid = prog, rep, rid
+        self.resolver = prog.method(SESSION[0], SESSION[1],
+                                    'get_resource_config')
+        self.resolver_summary = None
+        self.done   = {}
+        self.bound  = {}         # callee where -> [binding]
+        self._store = {}
+        self._deepc = {}
+
+    def store_spec(self, attr, depth):
+        """type of `self.<attr>[..] x depth` as the resolver's class stores
+        it (`self.<attr>[a][b] = Cls(..)`)"""
+        if attr not in self._store:
+            found = {}
+            for m in self.resolver.cls.methods.values():
+                ps = m.params
+                if not ps:
+                    continue
+                limps = m.module.local_imports(m.node)
+                for n in walk(m.node):
+                    if not (isinstance(n, ast.Assign) and
+                            isinstance(n.value, ast.Call)):
+                        continue
+                    for t in n.targets:
+                        k, x = 0, t
+                        while isinstance(x, ast.Subscript):
+                            k, x = k + 1, x.value
+                        if k and isinstance(x, ast.Attribute) and \
+                                x.attr == attr and \
+                                isinstance(x.value, ast.Name) and \
+                                x.value.id == ps[0] and \
+                                isinstance(n.value.func, (ast.Name,
+                                                          ast.Attribute)):
+                            r = self.prog.resolve(m.module, n.value.func,
+                                                  limps)
+                            if r and r[0] == 'class' and \
+                                    _is_td_class(self.prog, r[1]):
+                                found.setdefault(k, set()).add(r[1])
+            self._store[attr] = {k: next(iter(v)) for k, v in found.items()
+                                 if len(v) == 1}
+        c = self._store[attr].get(depth)
+        return ('td', c) if c is not None else ('store', attr, depth)
+
+    def deep_defaults(self, cls):
+        key = cls.where
+        if key not in self._deepc:
+            v = True
+            for k in self.prog.mro(cls):
+                e = k.consts.get('_deep')
+                if e is not None:
+                    v = not (isinstance(e, ast.Constant) and e.value is False)
+                    break
+            self._deepc[key] = v
+        return self._deepc[key]
+
+    def resolver_result(self, nid):
+        s = self.resolver_summary
+        name = self.resolver.qual
+        if s.kind == 'S':
+            return _Obj('S', s.spec, None, ('res', nid),
+                        'the config returned by %s()' % name,
+                        '%s() returns the stored instance itself, not a copy'
+                        % name)
+        return _Obj(s.kind, s.spec, None, ('res', nid),
+                    'the config returned by %s()' % name)
+
+    def history(self, obj):
+        if obj.oid and obj.oid[0] == 'loop':
+            return ('%s: the loop hands one and the same object to every '
+                    'call, e.g. pmgr.submit_pilots([pd, pd]) with two '
+                    'descriptions for the same resource and access schema '
+                    '(one bulk): the 2nd pilot is prepared from what the 1st '
+                    'call stored, the 3rd from what the first two stored '
+                    '(a per-node figure scaled once is scaled again: too few '
+                    'nodes requested / inflated core count)' % obj.oid[1])
+        return ('one process, two platforms: session.get_resource_config(A) '
+                '(or a pilot submitted to A), then a pilot on / a resolution '
+                'of platform B - B is resolved from configuration changed '
+                'while resolving A; resolving B first, or in a fresh '
+                'process, gives a different result (e.g. an argument '
+                'mandatory for A only is demanded for B: the pilot fails '
+                'with "attribute ... is required")')
+
+    def call(self, fr, c, h, nid):
+        """analyse callee h under the binding of call c; returns the object
+        kind of its result (or None)"""
+        if len(fr.chain) > 4 or h.qual in fr.chain or \
+                not isinstance(h.node, (ast.FunctionDef,)):
+            return None
+        a = h.node.args
+        if a.vararg or a.kwarg or \
+                any(isinstance(x, ast.Starred) for x in c.args) or \
+                any(k.arg is None for k in c.keywords):
+            return None
+        deco = {dotted(d) for d in h.node.decorator_list}
+        params = [x.arg for x in a.posonlyargs + a.args]
+        same_self = False
+        if h.cls is not None and 'staticmethod' not in deco and params:
+            recv = c.func.value if isinstance(c.func, ast.Attribute) else None
+            same_self = isinstance(recv, ast.Name) and \
+                recv.id == fr.selfname and fr.selfname is not None
+            params = params[1:]
+        if len(c.args) > len(params):
+            return None
+        pairs = list(zip(params, c.args))
+        names = params + [x.arg for x in a.kwonlyargs]
+        for k in c.keywords:
+            if k.arg not in names or k.arg in dict(pairs):
+                return None
+            pairs.append((k.arg, k.value))
+        tracked = {}
+        for p, e in pairs:
+            o = fr.expr_obj(e, nid)
+            if o is not None and o.kind != 'V':
+                tracked[p] = (o, e)
+        roots = fr.self_roots and same_self
+        if not tracked and not roots:
+            return None
+        binding = {}
+        for p, (o, e) in tracked.items():
+            if o.kind in ('F', 'D') and isinstance(e, ast.Name):
+                lh = fr.shared_loop(e.id, nid)
+                if lh is not None:
+                    inv = frozenset(('p', q) for q, ex in pairs
+                                    if fr.invariant_in(ex, lh))
+                    where = '%s calls %s in a loop' % (fr.f.qual, h.qual)
+                    binding[p] = _Obj(
+                        'S', o.spec, inv, ('loop', where, p),
+                        'parameter `%s`' % p,
+                        '%s creates `%s` (%s) once, outside its loop over '
+                        '`%s`, and passes the same object to every call of '
+                        '%s in that loop'
+                        % (fr.f.qual, e.id, o.origin,
+                           short(fr.g.loop_ast[lh].iter, 30)
+                           if lh in fr.g.loop_ast and
+                           hasattr(fr.g.loop_ast[lh], 'iter') else 'the bulk',
+                           h.qual))
+                    continue
+            inv = None
+            if o.kind == 'S' and o.inv is not None:
+                ok_names = _inv_names(o.inv)
+                inv = set()
+                for q, ex in pairs:
+                    lv = fr.leaves(ex, nid)
+                    if lv and lv <= ok_names:
+                        inv.add(('p', q))
+                inv = frozenset(inv)
+            binding[p] = _Obj(o.kind, o.spec, inv, ('param', p),
+                              'parameter `%s` (= %s)' % (p, o.origin), o.why)
+        key = (h.where, roots, tuple(sorted((p, o.sig())
+                                            for p, o in binding.items())))
+        if key not in self.done:
+            self.done[key] = None
+            self.rep.saw(h)
+            if binding:
+                self.bound.setdefault(h.where, []).append(binding)
+            sub = _Frame(self, h, binding, roots, fr.chain + (h.qual,))
+            sub.scan()
+            self.done[key] = _join6(sub.returns)
+        s = self.done[key]
+        if s is None or s.kind == 'V':
+            return None
+        return _Obj(s.kind, s.spec, None, ('ret', nid),
+                    'the result of %s()' % h.qual, s.why)
+
+
+def r17_6(prog, rep, tier, rid='R17.6'):
+    rep.rule(rid, 'Session.get_resource_config, its callers and the methods '
+             'they hand the config to (_start_pilot_bulk, _prepare_pilot) '
+             'never store into / mutate in place an object that outlives the '
+             'call: a stored entry, a container inside the per-call config '
+             '(not copied by the constructor), the config shared by the '
+             'pilots of a bulk', minimum=8)
+    ctx = _Purity(prog, rep, rid)
+    res = ctx.resolver
+    rep.saw(res)
+    fr = _Frame(ctx, res, {}, True, (res.qual,)).scan()
+    summ = _join6(fr.returns)
+    if summ is None or summ.kind == 'V':
+        raise AnalysisError('UNRECOGNISED-IDIOM %s: cannot tell what kind of '
+                            'object is returned' % res.where)
+    ctx.resolver_summary = summ
+    if summ.kind == 'S':
+        rep.info(rid, res, 'returns the stored instance (%s): every store of '
+                 'a caller through the result is a store into the session'
+                 % summ.origin, res.loc())
+    else:
+        rep.ok(rid, res, 'every return hands out an object created in this '
+               'call (%s)' % summ.origin, res.loc())
+    if tier == 'thorough':
+        classes = sorted(prog.all_classes(), key=lambda k: k.where)
+    else:
+        classes = [prog.cls(*SESSION), prog.cls(*PMGRL)]
+    ncall = 0
+    for c in classes:
+        for m in sorted(c.methods.values(), key=lambda k: k.qual):
+            if m is res or not any(
+                    isinstance(x.func, ast.Attribute) and
+                    x.func.attr == res.name for x in calls_in(m.node)):
+                continue
+            ncall += 1
+            rep.saw(m)
+            _Frame(ctx, m, {}, False, (m.qual,)).scan()
+    rep.stat('resolver_callers', ncall)
+    pp = prog.method(PMGRL[0], PMGRL[1], '_prepare_pilot')
+    if not ctx.bound.get(pp.where):
+        raise AnalysisError('UNRECOGNISED-IDIOM %s is not reached with the '
+                            'config %s() returns: cannot tell which of its '
+                            'parameters is the resource config'
+                            % (pp.where, res.qual))
+    if not any(o.kind == 'S' for b in ctx.bound[pp.where]
+               for o in b.values()):
+        rep.info(rid, pp, 'every call gets a config of its own')
+
+
+# ------------------------------------------------------------------------------
 #
 def run(prog, rep, tier):
     rep.decided = ('every entry of every shipped resource_*.json, under each '
@@ -2838,10 +3935,18 @@ def run(prog, rep, tier):
         'are ceil(max(cores/avail, gpus/avail)) with divisors depending on '
         'SMT and blocked lists; the agent reads the keys written; the divisors '
         'equal, as polynomials over the configured quantities, the usable '
-        'cores/gpus per node the agent derives from what it is handed.')
+        'cores/gpus per node the agent derives from what it is handed; '
+        'get_resource_config, its callers and what they pass the config to '
+        '(_start_pilot_bulk, _prepare_pilot, their resolved callees) write '
+        'only to objects created in the call - never to a stored entry, to a '
+        'container the per-call config shares with it or with the class-level '
+        'defaults, or to the config one bulk shares among its pilots - so '
+        'that resolution and sizing do not depend on earlier calls.')
     rep.undecided = ('minimality of the node count for all numeric inputs '
         '(arithmetic is not evaluated); what the batch system makes of the '
-        'job description; user-supplied resource configs in ~/.radical.')
+        'job description; user-supplied resource configs in ~/.radical; what '
+        'the pilot launchers (`launcher.launch_pilots(rcfg, ..)`, receiver '
+        'not resolvable) do to the config they are handed.')
     rep.assumptions = [
         'radical.utils semantics as of the installed version: read_json strips '
         'whole-line # comments only; dict_merge(a, b, OVERWRITE) merges '
@@ -2854,6 +3959,19 @@ def run(prog, rep, tier):
         'config)',
         'no monkey patching of the factory methods; tables are the dict '
         'literals inside them',
+        'R17.6: a TypedDict constructor copies the top-level keys of its '
+        'argument and of the class-level _defaults without copying the '
+        'values (TypedDict.update, FastTypedDict._deep = False); verify() '
+        're-creates list / dict typed values and is idempotent; '
+        'copy.deepcopy and ru.Config(from_dict= / cfg=) yield private trees; '
+        'functions outside the package do not mutate their arguments except '
+        'the list / dict / set mutators and ru.dict_merge (first operand, '
+        'recursively for dict values present on both sides)',
+        'R17.6: a store into a stored entry is history independent only if '
+        'the value is a pure function of the parameters whose split() parts '
+        '(all of them) or which themselves index the entry - split is '
+        'inverted by joining, so one entry always receives one value - and '
+        'the entry is not read before the store',
     ]
     ctx = build_ctx(prog, rep)
     r17_1(prog, rep, ctx)
@@ -2861,6 +3979,7 @@ def run(prog, rep, tier):
     r17_3(prog, rep)
     r17_4(prog, rep)
     r17_5(prog, rep)
+    r17_6(prog, rep, tier)
     if tier == 'thorough':
         # sweep: every factory in the package which selects a class through a
         # dict literal (stagers, tmgr schedulers, ...) has resolvable rows
@@ -2918,6 +4037,8 @@ def _two(cpu, gpu, comb='max(nodes_cpu, nodes_gpu)'):
 
 _CEIL_C = 'math.ceil(requested_cores / avail_cores_per_node)'
 _CEIL_G = 'math.ceil(requested_gpus / avail_gpus_per_node)'
+_SMT = "            cores_per_node *= smt\n"
+_LBL = "        rcfg.label = resource\n\n        rcfg.verify()\n"
 
 
 MUTATIONS = [
@@ -3048,6 +4169,40 @@ MUTATIONS = [
         (_PML, _BLK, _two(_CEIL_C, _CEIL_G, 'nodes_cpu\n            if nodes_gpu < requested_nodes:\n                requested_nodes = nodes_gpu'))]),
     dict(name='R17.5 one integer per kind, GPU part through math.floor', rules=('R17.5',), edits=[
         (_PML, _BLK, _two(_CEIL_C, 'math.floor(requested_gpus / avail_gpus_per_node)'))]),
+    # ---- R17.6 history independence ------------------------------------------
+    dict(name='R17.6 seed C17-e: SMT-scaled core count stored back into the config shared by the bulk', rules=('R17.6',), edits=[
+        (_PML, _SMT, _SMT + "\n            # agent config and its copy of the resource config agree\n            rcfg.cores_per_node = cores_per_node\n")]),
+    dict(name='R17.6 the same by subscript, through update()', rules=('R17.6',), edits=[
+        (_PML, _SMT, _SMT + "            rcfg.update({'cores_per_node': cores_per_node})\n")]),
+    dict(name='R17.6 SMT level recorded in the shared system_architecture dict (local alias)', rules=('R17.6',), edits=[
+        (_PML, _SMT, _SMT + "            system_architecture['smt'] = smt\n")]),
+    dict(name='R17.6 per-pilot command appended to the shared pre_bootstrap_0 list', rules=('R17.6',), edits=[
+        (_PML, "        for arg in pre_bootstrap_0:   bs_args.extend(['-e', arg])",
+               "        if services:\n            pre_bootstrap_0.append('export RP_SERVICES=%d' % len(services))\n        for arg in pre_bootstrap_0:   bs_args.extend(['-e', arg])")]),
+    dict(name='R17.6 per-pilot pre_exec added with += on the alias of the shared list', rules=('R17.6',), edits=[
+        (_PML, "        agent_cfg['task_pre_exec']       = task_pre_exec", "        if enable_ep:\n            task_pre_exec += ['export RP_EP=1']\n        agent_cfg['task_pre_exec']       = task_pre_exec")]),
+    dict(name='R17.6 store into the shared config inside a new helper of _prepare_pilot', rules=('R17.6',), edits=[
+        (_PML, _SMT, _SMT + "            self._note_threads(rcfg, cores_per_node)\n"),
+        (_PML, "    def _prepare_pilot(self, resource, rcfg, pilot, expand, tar_name):\n",
+               "    def _note_threads(self, cfg, n_threads):\n\n        cfg['cores_per_node'] = n_threads\n\n\n"
+               "    # --------------------------------------------------------------------------\n    #\n"
+               "    def _prepare_pilot(self, resource, rcfg, pilot, expand, tar_name):\n")]),
+    dict(name='R17.6 bulk starter appends to a list inside the resolved config', rules=('R17.6',), edits=[
+        (_PML, "        for k in rcfg:\n            if isinstance(rcfg[k], str):", "        rcfg.pre_bootstrap_0.append('export RP_BULK=%d' % len(pilots))\n        for k in rcfg:\n            if isinstance(rcfg[k], str):")]),
+    dict(name='R17.6 seed C17-f: mandatory_args extended in place before verify()', rules=('R17.6',), edits=[
+        (_SES, _LBL, "        rcfg.label = resource\n\n        if '%(pd.project)s' in (rcfg.default_remote_workdir or ''):\n            if 'project' not in rcfg.mandatory_args:\n                rcfg.mandatory_args += ['project']\n\n        rcfg.verify()\n")]),
+    dict(name='R17.6 the same with append() on a local alias', rules=('R17.6',), edits=[
+        (_SES, _LBL, "        rcfg.label = resource\n\n        required = rcfg.mandatory_args\n        if '%(pd.project)s' in (rcfg.default_remote_workdir or ''):\n            if 'project' not in required:\n                required.append('project')\n\n        rcfg.verify()\n")]),
+    dict(name='R17.6 launch order trimmed in place inside the nested launch_methods dict', rules=('R17.6',), edits=[
+        (_SES, _LBL, "        rcfg.label = resource\n\n        rcfg.verify()\n\n        if 'order' in rcfg.launch_methods and schema == 'local':\n            rcfg.launch_methods['order'].remove('SSH')\n")]),
+    dict(name='R17.6 schema endpoints also written back into the stored entry', rules=('R17.6',), edits=[
+        (_SES, "        ru.dict_merge(rcfg, scfg, ru.OVERWRITE)\n", "        ru.dict_merge(rcfg, scfg, ru.OVERWRITE)\n        self._rcfgs[site][res].update(scfg)\n")]),
+    dict(name='R17.6 chosen schema remembered as default_schema of the stored entry', rules=('R17.6',), edits=[
+        (_SES, "        rcfg = ResourceConfig(from_dict=self._rcfgs[site][res])\n", "        self._rcfgs[site][res]['default_schema'] = schema\n        rcfg = ResourceConfig(from_dict=self._rcfgs[site][res])\n")]),
+    dict(name='R17.6 resolver hands out the stored entry itself when there is no schema: the bulk starter expands placeholders in it', rules=('R17.6',), edits=[
+        (_SES, "            return ResourceConfig(from_dict=from_dict)", "            return from_dict")]),
+    dict(name='R17.6 label stored into the entry after the copy was taken', rules=('R17.6',), edits=[
+        (_SES, "            from_dict.label = resource\n            return ResourceConfig(from_dict=from_dict)", "            rcfg = ResourceConfig(from_dict=from_dict)\n            from_dict.label = resource\n            return rcfg")]),
 ]
 
 SILENT = [
@@ -3189,4 +4344,39 @@ SILENT = [
         (_PML, _BLK, _two(_CEIL_C, _CEIL_G, 'nodes_cpu\n            if nodes_gpu > requested_nodes:\n                requested_nodes = nodes_gpu'))]),
     dict(name='R17.5 floor division, one more node if there is a remainder', edits=[
         (_PML, _BLK, _two(_CEIL_C, 'requested_gpus // avail_gpus_per_node\n                if requested_gpus % avail_gpus_per_node:\n                    nodes_gpu += 1'))]),
+    # ---- R17.6 ---------------------------------------------------------------
+    dict(name='R17.6 mandatory_args re-bound to a new list (x = x + [..]) on the per-call config', edits=[
+        (_SES, _LBL, "        rcfg.label = resource\n\n        if '%(pd.project)s' in (rcfg.default_remote_workdir or ''):\n            if 'project' not in rcfg.mandatory_args:\n                rcfg.mandatory_args = rcfg.mandatory_args + ['project']\n\n        rcfg.verify()\n")]),
+    dict(name='R17.6 mandatory_args extended on a local copy which is then re-bound', edits=[
+        (_SES, _LBL, "        rcfg.label = resource\n\n        required = list(rcfg.mandatory_args)\n        if '%(pd.project)s' in (rcfg.default_remote_workdir or ''):\n            if 'project' not in required:\n                required.append('project')\n        rcfg.mandatory_args = required\n\n        rcfg.verify()\n")]),
+    dict(name='R17.6 mandatory_args first re-bound to a copy, then extended in place', edits=[
+        (_SES, _LBL, "        rcfg.label = resource\n\n        rcfg.mandatory_args = list(rcfg.mandatory_args)\n        if '%(pd.project)s' in (rcfg.default_remote_workdir or ''):\n            rcfg.mandatory_args.append('project')\n\n        rcfg.verify()\n")]),
+    dict(name='R17.6 mandatory_args extended in place after verify() re-created the list', edits=[
+        (_SES, _LBL, "        rcfg.label = resource\n\n        rcfg.verify()\n\n        if '%(pd.project)s' in (rcfg.default_remote_workdir or ''):\n            if 'project' not in rcfg.mandatory_args:\n                rcfg.mandatory_args.append('project')\n")]),
+    dict(name='R17.6 resolver works on a deep copy of the stored entry', edits=[
+        (_SES, "        rcfg = ResourceConfig(from_dict=self._rcfgs[site][res])\n", "        rcfg = ResourceConfig(from_dict=self._rcfgs[site][res])\n        rcfg = copy.deepcopy(rcfg)\n"),
+        (_SES, _LBL, "        rcfg.label = resource\n        rcfg.mandatory_args.append('project')\n        rcfg.mandatory_args.remove('project')\n\n        rcfg.verify()\n")]),
+    dict(name='R17.6 label of the stored entry set through a renamed alias, lookups cached', edits=[
+        (_SES, "            from_dict = self._rcfgs[site][res]\n            from_dict.label = resource\n            return ResourceConfig(from_dict=from_dict)",
+               "            stored = self._rcfgs[site]\n            entry = stored[res]\n            label = resource\n            entry['label'] = label\n            return ResourceConfig(from_dict=entry)")]),
+    dict(name='R17.6 _prepare_pilot stores into its own deep copy of the bulk config', edits=[
+        (_PML, "        rcfg.verify()\n\n        pid = pilot[\"uid\"]", "        rcfg = copy.deepcopy(rcfg)\n        rcfg.verify()\n\n        pid = pilot[\"uid\"]"),
+        (_PML, _SMT, _SMT + "            rcfg.cores_per_node = cores_per_node\n            rcfg.system_architecture['smt'] = smt\n")]),
+    dict(name='R17.6 one config per pilot: resolved inside the loop of the bulk starter', edits=[
+        (_PML, "            self._prepare_pilot(resource, rcfg, pilot, expand, tar_name)", "            pcfg = ResourceConfig(from_dict=rcfg)\n            self._prepare_pilot(resource, pcfg, pilot, expand, tar_name)"),
+        (_PML, "from ... import utils     as rpu\n", "from ... import utils     as rpu\n\nfrom ...resource_config import ResourceConfig\n"),
+        (_PML, _SMT, _SMT + "            rcfg.cores_per_node = cores_per_node\n")]),
+    dict(name='R17.6 bulk-invariant label stored into the shared config', edits=[
+        (_PML, "        rcfg.verify()\n\n        pid = pilot[\"uid\"]", "        rcfg.verify()\n        rcfg.label = resource\n\n        pid = pilot[\"uid\"]")]),
+    dict(name='R17.6 pre_exec extended on a private copy of the shared list', edits=[
+        (_PML, "        agent_cfg['task_pre_exec']       = task_pre_exec", "        task_pre_exec = list(task_pre_exec)\n        if enable_ep:\n            task_pre_exec += ['export RP_EP=1']\n            task_pre_exec.append('export RP_EP_PID=%s' % pid)\n        agent_cfg['task_pre_exec']       = task_pre_exec")]),
+    dict(name='R17.6 pre_exec re-bound with x = x + [..] on the local alias', edits=[
+        (_PML, "        agent_cfg['task_pre_exec']       = task_pre_exec", "        if enable_ep:\n            task_pre_exec = task_pre_exec + ['export RP_EP=1']\n        agent_cfg['task_pre_exec']       = task_pre_exec")]),
+    dict(name='R17.6 placeholder expansion of the bulk starter in a helper which re-binds keys', edits=[
+        (_PML, "        for k in rcfg:\n            if isinstance(rcfg[k], str):\n                orig     = rcfg[k]\n                rcfg[k]  = rcfg[k] % expand\n                expanded = rcfg[k]\n                if orig != expanded:\n                    self._log.debug('RCFG:\\n%s\\n%s', orig, expanded)\n",
+               "        self._expand_cfg(rcfg, expand)\n"),
+        (_PML, "    def _prepare_pilot(self, resource, rcfg, pilot, expand, tar_name):\n",
+               "    def _expand_cfg(self, cfg, values):\n\n        for key in cfg:\n            if not isinstance(cfg[key], str):\n                continue\n            cfg[key] = cfg[key] % values\n\n\n"
+               "    # --------------------------------------------------------------------------\n    #\n"
+               "    def _prepare_pilot(self, resource, rcfg, pilot, expand, tar_name):\n")]),
 ]
